@@ -292,14 +292,16 @@ Proof.
   destruct H as (L & T & G & _). repeat split; try apply L; assumption.
 Qed.
 
-(* SetPermissions: the tree changes at most by a chmod of n *)
+(* SetPermissions: a failure changes nothing; a success does a chmod of n
+   exactly when there are permission bits to set *)
 Lemma set_permissions_spec : forall E h n own mode s s' r,
   run (liftF (set_permissions E h n own mode)) s = (s', r) ->
   same_log s s' /\ tstg s' = tstg s /\
-  (tfs s' = tfs s \/
-   (is_ok r = true /\
+  ((is_ok r = false /\ tfs s' = tfs s) \/
+   (r = ROk tt /\ N.land mode 511 = 0%N /\ tfs s' = tfs s) \/
+   (r = ROk tt /\ N.land mode 511 <> 0%N /\
     exists m c y, dir_at h (tfs s) = Some (m, c) /\ nlookup n c = Some y /\
-      (forall m0 t, y <> NLink m0 t) /\ N.land mode 511 <> 0%N /\
+      (forall m0 t, y <> NLink m0 t) /\
       tfs s' = repl h (NDir m (nset n (Some (with_meta y (set_mode (node_meta y) (N.land mode 511)))) c))
                     (tfs s))).
 Proof.
@@ -307,8 +309,8 @@ Proof.
   pose proof (run_log _ _ _ _ _ H) as L. split; [exact L|].
   apply run_tx in H. unfold liftF, set_permissions in H. cbn [fs calls] in H.
   destruct (negb (prim_name_ok n)).
-  { injection H as H1 <-. unfold tfs, tstg. rewrite <- H1. cbn. split; [reflexivity|left; reflexivity]. }
-  (* rebuild the two sub-steps as runs on tstate *)
+  { injection H as H1 <-. unfold tfs, tstg. rewrite <- H1. cbn. split; [reflexivity|].
+    left. split; reflexivity. }
   set (s0 := {| fs := x_fs (tx s); calls := x_calls (tx s) |}) in *.
   destruct (if own then chown E h n s0 else (s0, ROk tt)) as [s1 r1] eqn:C.
   assert (fs s1 = fs s0) as E1.
@@ -318,22 +320,22 @@ Proof.
   destruct r1 as [[]|e|].
   - destruct (N.eqb (N.land mode 511) 0) eqn:Z.
     + injection H as H1 <-. unfold tfs, tstg. rewrite <- H1. cbn. split; [reflexivity|].
-      left. rewrite E1. reflexivity.
+      right. left. apply N.eqb_eq in Z. split; [reflexivity|]. split; [exact Z|].
+      rewrite E1. reflexivity.
     + destruct (chmod E h n mode s1) as [s2 r2] eqn:CM. injection H as H1 <-.
       unfold tfs, tstg. rewrite <- H1. cbn. split; [reflexivity|].
       unfold chmod in CM. apply prim_upd in CM.
       destruct CM as [[T N]|(m & c & a & c' & D & F & T & ->)].
-      * left. rewrite T, E1. reflexivity.
-      * right. split; [reflexivity|]. rewrite E1 in D, T. cbn [fs s0] in D, T.
+      * left. split; [apply is_ok_false; exact N|]. rewrite T, E1. reflexivity.
+      * right. right. destruct a. split; [reflexivity|]. apply N.eqb_neq in Z. split; [exact Z|].
+        rewrite E1 in D, T. cbn [fs s0] in D, T.
         exists m, c. destruct (nlookup n c) as [y|] eqn:Ly; [|discriminate]. exists y.
         split; [exact D|]. split; [reflexivity|].
-        apply N.eqb_neq in Z.
-        destruct y; try discriminate; injection F as _ <-;
-          (split; [discriminate|split; [exact Z|exact T]]).
+        destruct y; try discriminate; injection F as <-; (split; [discriminate|exact T]).
   - injection H as H1 <-. unfold tfs, tstg. rewrite <- H1. cbn. split; [reflexivity|].
-    left. rewrite E1. reflexivity.
+    left. split; [reflexivity|]. rewrite E1. reflexivity.
   - injection H as H1 <-. unfold tfs, tstg. rewrite <- H1. cbn. split; [reflexivity|].
-    left. rewrite E1. reflexivity.
+    left. split; [reflexivity|]. rewrite E1. reflexivity.
 Qed.
 
 Lemma create_temp_spec : forall E h pat s s' r,
@@ -687,3 +689,4 @@ Proof.
   injection HA as _ _ <-. exists o. split; [reflexivity|]. rewrite G, sget_sset_same. cbn.
   split; reflexivity.
 Qed.
+
